@@ -435,16 +435,26 @@ func TestC20_StorageErrorsStayInternal(t *testing.T) {
 		w := h.NewWorld(h.Spec{Store: store, RefreshScopes: []string{}, Mutate: func(c *fosite.Config) {
 			c.SendDebugMessagesToClients = expose
 			c.UseLegacyErrorFormat = legacy
+			// the library's own JWKS fetcher over the in-process transport
+			c.JWKSFetcherStrategy = fosite.NewDefaultJWKSFetcherStrategy(fosite.JWKSFetcherWithHTTPClient(c.HTTPClient))
 		}})
 		cl := stdClient("A", false)
 		cl.Secret = w.HashSecret("sA")
+		cl.RequestURIs = []string{"https://rp.example/request.jwt"}
+		cl.JSONWebKeys = &jose.JSONWebKeySet{Keys: []jose.JSONWebKey{h.PublicJWK(h.RSAKey(1), "kid-1", "RS256")}}
 		w.AddClient(cl, "sA")
 		w.AddUser("peter", "pw")
 		auth := w.BasicFor("A")
 		canary := "CANARY" + rapid.StringMatching("[a-z]{10}").Draw(rt, "canary")
+		// what a failing outbound fetch says (internal addresses, proxies) is internal detail as well
+		fetchErr := errors.New("proxyconnect tcp: dial tcp 10.9.8.7:3128: connect: connection refused " + canary)
+		w.DocErr = map[string]error{}
+		jc := &fosite.DefaultOpenIDConnectClient{DefaultClient: &fosite.DefaultClient{ID: "J", GrantTypes: []string{"client_credentials"}, Scopes: []string{"a"}},
+			TokenEndpointAuthMethod: "private_key_jwt", TokenEndpointAuthSigningAlgorithm: "RS256", JSONWebKeysURI: "https://rp.example/jwks/J"}
+		w.AddClient(jc, "")
 		failing := rapid.SampledFrom(methods).Draw(rt, "failingMethod")
 		storageErr := errors.New("pq: dial tcp 10.1.2.3:5432 connect refused user=fosite_rw " + canary)
-		scenario := rapid.SampledFrom([]string{"redeem", "replay-code", "refresh", "replay-refresh", "revoke", "introspect", "device-poll", "device-replay", "par-push", "par-use", "authorize-code", "authorize-hybrid", "password", "client_credentials"}).Draw(rt, "scenario")
+		scenario := rapid.SampledFrom([]string{"redeem", "replay-code", "refresh", "replay-refresh", "revoke", "introspect", "device-poll", "device-replay", "par-push", "par-use", "authorize-code", "authorize-hybrid", "password", "client_credentials", "request_uri-fetch-fails", "jwks_uri-fetch-fails"}).Draw(rt, "scenario")
 		verifier := "c20-verifier-" + strings.Repeat("v", 40)
 		authz := func(rtype string) *h.AuthzResult {
 			return w.Authorize(url.Values{"client_id": {"A"}, "response_type": {rtype}, "state": {"state-0123456789"}, "nonce": {"nonce-0123456789"}, "redirect_uri": {redirectURI}, "scope": {"openid offline a"}, "code_challenge": {h.PKCES256(verifier)}, "code_challenge_method": {"S256"}}, h.Consent{})
@@ -517,12 +527,27 @@ func TestC20_StorageErrorsStayInternal(t *testing.T) {
 			final = func() (string, []byte, http.Header, string) {
 				return tokenOut(w.Token(url.Values{"grant_type": {"password"}, "username": {"peter"}, "password": {"pw"}, "scope": {"offline a"}}, auth, h.TokenOpts{Session: h.NewSess("")}))
 			}
+		case "request_uri-fetch-fails":
+			w.DocErr["https://rp.example/request.jwt"] = fetchErr
+			final = func() (string, []byte, http.Header, string) {
+				return authzOut(w.Authorize(url.Values{"client_id": {"A"}, "response_type": {"code"}, "state": {"state-0123456789"}, "nonce": {"nonce-0123456789"}, "redirect_uri": {redirectURI}, "scope": {"openid a"}, "request_uri": {"https://rp.example/request.jwt"}}, h.Consent{}))
+			}
+		case "jwks_uri-fetch-fails":
+			w.DocErr["https://rp.example/jwks/J"] = fetchErr
+			final = func() (string, []byte, http.Header, string) {
+				now := h.Now()
+				a := h.MustSignJWT(h.RSAKey(1), "RS256", "kid-1", map[string]interface{}{"iss": "J", "sub": "J", "aud": h.TokenURL, "jti": "jti-" + canary, "exp": now.Add(300e9).Unix(), "iat": now.Unix()})
+				return tokenOut(w.Token(url.Values{"grant_type": {"client_credentials"}, "scope": {"a"}, "client_assertion_type": {assertionType}, "client_assertion": {a}}, h.Auth{}, h.TokenOpts{}))
+			}
 		default:
 			final = func() (string, []byte, http.Header, string) {
 				return tokenOut(w.Token(url.Values{"grant_type": {"client_credentials"}, "scope": {"a"}}, auth, h.TokenOpts{}))
 			}
 		}
 		hits := 0
+		if strings.HasSuffix(scenario, "-fetch-fails") {
+			hits = 1 // the failing fetch is the injected fault of these scenarios
+		}
 		w.W.Before = func(c *h.Call) error {
 			if c.Method == failing {
 				hits++
@@ -552,6 +577,9 @@ func TestC20_StorageErrorsStayInternal(t *testing.T) {
 		}
 		if dec, err := url.QueryUnescape(all.String()); err == nil {
 			all.WriteString(dec)
+		}
+		if strings.Contains(all.String(), canary) && strings.HasSuffix(scenario, "-fetch-fails") {
+			h.Violate(rt, "C20/fetch-error-text-in-response", "scenario %s (debug exposure off, legacy=%v): the text of the failed outbound fetch reached the client\n answer: %s\n body: %.700s\n location: %.300s", scenario, legacy, answer, body, loc)
 		}
 		if strings.Contains(all.String(), canary) {
 			h.Violate(rt, "C20/storage-error-text-in-response", "scenario %s with %s failing (debug exposure off, legacy=%v, store %s): the storage error text reached the client\n answer: %s\n body: %.600s\n location: %.300s", scenario, failing, legacy, store, answer, body, loc)
